@@ -17,7 +17,7 @@ LISTS = [
 
 def x_obligations(tier):
     o = []
-    T = 170 if tier == "quick" else 1500
+    T = 170 if tier == "quick" else 600
     n = 1 if tier == "quick" else 2
     for i, (s, pre, mid, tail, fixed) in enumerate(LISTS):
         env = {"VF_SEARCH": s, "VF_PRE": pre, "VF_MID": mid, "VF_TAIL": tail, "VF_FIXED": fixed, "VF_N": str(n)}
